@@ -191,4 +191,7 @@ func genC10(g *Gen) {
 		order(h, v1, l1, v2, l2, b)
 		order(h, v2, l2, v1, l1, b)
 	}
+
+	// widening round: raw arguments, raw words, rebuild, non-canonical bits, family (harness/c10w.go)
+	genC10Wide(g)
 }
